@@ -3,6 +3,7 @@ package main
 import (
 	"fmt"
 	"go/ast"
+	"go/token"
 	"sort"
 	"strings"
 )
@@ -66,6 +67,47 @@ func checkC05(p *Prog, r *Report) {
 	if nSwitch == 0 {
 		r.Fail("role switch", "agent.go", "no role switch found (rule instance lost)")
 	}
+	// ---- R5.8 the tie-breaker decides in one place ---------------------------------------------------------------
+	r.Rule("R5.8", "The agent's tie-breaker is compared with a remote value only in the conflict handler, which runs after the request was authenticated; everywhere else it is only handed to the attribute builders of outgoing requests. No other code (a pre-filter for 'looped back' requests, a shortcut in the dispatcher) decides anything from the tie-breaker, so a genuine same-role peer with an equal or special tie-breaker still gets the RFC 8445 §7.3.1.1 treatment.", 1)
+	{
+		n := 0
+		for _, f := range p.AllFuncs {
+			if f.Pkg != p.Ice || f.Body == nil {
+				continue
+			}
+			f := f
+			walkBody(f, func(x ast.Node) bool {
+				sel, ok := x.(*ast.SelectorExpr)
+				if !ok || !p.IsField(sel, "Agent.tieBreaker") {
+					return true
+				}
+				n++
+				return true
+			})
+			// comparisons that involve the tie-breaker
+			walkBody(f, func(x ast.Node) bool {
+				be, ok := x.(*ast.BinaryExpr)
+				if !ok {
+					return true
+				}
+				switch be.Op {
+				case token.EQL, token.NEQ, token.LSS, token.GTR, token.LEQ, token.GEQ:
+				default:
+					return true
+				}
+				if !p.MentionsField(be, "Agent.tieBreaker") {
+					return true
+				}
+				okSite := hrc != nil && (f == hrc || f.Root() == hrc)
+				r.Check(okSite, "tie-breaker compared in "+f.Name, p.Pos(be.Pos()), "only in the conflict handler", "the tie-breaker is compared in "+f.Name+", outside the conflict handler: requests are filtered or roles decided by the tie-breaker before authentication / outside the RFC table (for instance a same-role peer with an equal tie-breaker is silently dropped instead of answered with 487 or yielded to)")
+				return true
+			})
+		}
+		if n < 4 {
+			r.Fail("uses of the tie-breaker", "agent.go", "fewer than 4 uses of Agent.tieBreaker found (rule instance lost)")
+		}
+	}
+
 	// ---- R5.7 only the tie-breakers switch a role ---------------------------------------------------------
 	r.Rule("R5.7", "A role switch (a store to the role flag whose value depends on the current flag) is decided by the tie-breakers: on every path to it the function has consulted the agent's tie-breaker. No other event — an error response, a timeout, a nomination — flips the role, so which agent ends up controlling depends on the two tie-breaker values and not on the order in which messages arrive.", 1)
 	for _, f := range p.AllFuncs {
